@@ -176,6 +176,8 @@ public:
   void setBreakPoints(const std::vector<size_t>& breakPoints) override
   {
     breakPoints_ = breakPoints;
+    dVariable_ = "";
+    d2Variable_ = "";
     computeForward_();
     backLogLikelihoodUpToDate_ = false;
   }
